@@ -745,6 +745,16 @@ impl TypeSpace {
         };
         // TODO need a type alias?
         if let Some(entry_name) = type_entry.name() {
+            // Two types of the same name (definitions whose names differ
+            // only in case or separators, a definition added twice, or a
+            // definition named like an existing type) would both be emitted.
+            // Report that rather than emit code that can't compile.
+            if matches!(self.name_to_id.get(entry_name), Some(id) if id != &type_id) {
+                return Err(Error::InvalidSchema {
+                    type_name: Some(entry_name.clone()),
+                    reason: "a type with this name already exists".to_string(),
+                });
+            }
             self.name_to_id.insert(entry_name.clone(), type_id.clone());
         }
         self.id_to_entry.insert(type_id, type_entry);
